@@ -12,6 +12,7 @@ EXTRA = {
  "R2-C05-dereference-unconditional-cleanup": ["C01"], "R2-C07-filled-not-refreshed": ["C02"],
  "R2-C16-validate-skips-newer-index": ["C09"], "R2-C01-cleanup-with-record-id": ["C09"],
  "R2-C09-drop-index-ignores-id": ["C02"], "R2-C15-cleanup-not-woken-while-files-queued": [],
+ "R3-C03-replay-missing-new-index": ["C09"], "R3-C03-replayed-drop-index": ["C09"], "R3-C14-reindex-progress-stale-for-queued-index": ["C09"],
  "C11-deferral-skips-queue-scan": [], "C09-reindex-progress-not-reset": [],
 }
 only = sys.argv[1:]
